@@ -288,13 +288,24 @@ SCRATCH = {}
 
 
 def scratch_dir():
+    """a directory of this process under the run's scratch root (the root is made and removed by run / replay)"""
     pid = os.getpid()
     if SCRATCH.get("pid") != pid:
         SCRATCH["pid"] = pid
-        SCRATCH["dir"] = tempfile.mkdtemp(prefix="X06-out-")
-        import atexit
-        atexit.register(shutil.rmtree, SCRATCH["dir"], True)
+        SCRATCH["dir"] = tempfile.mkdtemp(prefix="w%d-" % pid, dir=SCRATCH["root"])
     return SCRATCH["dir"]
+
+
+class ScratchRoot(object):
+    def __enter__(self):
+        SCRATCH["root"] = tempfile.mkdtemp(prefix="X06-out-")
+        SCRATCH.pop("pid", None)
+        return self
+
+    def __exit__(self, *a):
+        shutil.rmtree(SCRATCH.pop("root"), ignore_errors=True)
+        SCRATCH.pop("pid", None)
+        return False
 
 
 # ------------------------------------------------------------------------------------------ histories
@@ -545,8 +556,9 @@ def ob_cmp(c, conc):
     try:
         with Capture() as cap:
             res = quiet(nu.compare_arrays, a, b, verbose=c["verbose"], ignore_missing=c["ignore_missing"])
+        names = sorted({fd["nm"] for t in (c["a"], c["b"]) for fd in t["fields"]})
         o = {"err": "none" if isinstance(res, (bool, np.bool_)) else "not_a_bool", "res": bool(res), "nout": len(cap.text),
-             "mentioned": sorted(set(re.findall(r"'([^']*)'", cap.text)))}
+             "mentioned": [n for n in names if re.search(r"(?<![A-Za-z0-9_])" + re.escape(n) + r"(?![A-Za-z0-9_])", cap.text)]}
     except Exception as e:  # noqa
         o = {"err": errname(e), "res": False, "nout": 0, "mentioned": []}
     o["frame_ok"] = a.tobytes() == ba and b.tobytes() == bb
@@ -566,12 +578,30 @@ def ob_ahelp(c, conc):
         with Capture() as cap:
             quiet(nu.ahelp, arr, pretty=c["pretty"])
     except Exception as e:  # noqa
-        return {"err": errname(e), "size": -1, "nfields": -1, "typ": "", "toks": []}
+        return {"err": errname(e), "size": -1, "nfields": -1, "typ": "", "fields": []}
     lines = cap.text.split("\n")
     m = re.match(r"\s*size:\s*(\d+)\s+nfields:\s*(\d+)\s+type:\s*(\S+)\s*$", lines[0]) if lines else None
+    bad = [{"found": False, "ts": "", "dims": []} for _ in c["tab"]["fields"]]
     if not m:
-        return {"err": "none", "size": -1, "nfields": -1, "typ": "", "toks": []}
-    return {"err": "none", "size": int(m.group(1)), "nfields": int(m.group(2)), "typ": m.group(3), "toks": " ".join(lines[1:]).split()}
+        return {"err": "none", "size": -1, "nfields": -1, "typ": "", "fields": bad}
+    toks = " ".join(lines[1:]).split()
+    names = [fd["nm"] for fd in c["tab"]["fields"]]
+    pos, at = [], 0
+    for nm in names:                      # the field names, in order, cut the listing into one chunk per field
+        while at < len(toks) and toks[at] != nm:
+            at += 1
+        pos.append(at if at < len(toks) else None)
+        at += 1
+    fields = []
+    for j, p0 in enumerate(pos):
+        if p0 is None:
+            fields.append({"found": False, "ts": "", "dims": []})
+            continue
+        nxt = next((q for q in pos[j + 1:] if q is not None), len(toks))
+        chunk = toks[p0 + 1:nxt]
+        fields.append({"found": True, "ts": chunk[0] if chunk else "", "dims": [int(t) for t in re.findall(r"\d+", " ".join(chunk[1:]))][:6]
+                       if c["tab"]["fields"][j]["shape"] else []})
+    return {"err": "none", "size": int(m.group(1)), "nfields": int(m.group(2)), "typ": m.group(3), "fields": fields}
 
 
 def ob_ridx(c, seed):
@@ -958,10 +988,10 @@ def hist_signature(r, clause):
             return "ArrayWriter.write|%s|nlines>nrows" % cl
         if call["tab"]["nrows"] == 0:
             return "ArrayWriter.write|%s|nrows=0" % cl
-    if cl == "row" and c["adelim"] != "-" and w["adelim"] == "-" and H["entry"] == "writer":
-        return "ArrayWriter.write|row|constructor_array_delim_not_repeated"
+    if cl == "constructor_array_delim_ignored":
+        return "ArrayWriter.write|constructor_array_delim_ignored"
     if cl in ("aligned", "header") and w["alt"]["given"]:
-        return "ArrayWriter.write|%s|fancy|altnames" % cl
+        return "ArrayWriter.write|%s|altnames" % cl
     if cl == "stray_output":
         feats.append(H["target"])
     return "ArrayWriter.write|%s|%s%s" % (cl, typ, "".join("|" + f for f in feats))
@@ -994,7 +1024,9 @@ def case_of(r):
 
 
 def judge(ctx, recs, what, shard_size=4000):
+    n0 = len(ctx.tlc_runs)
     rejects = tracecheck.validate(ctx, "ArrayTextTrace.tla", [strip(r) for r in recs], what=what, shard_size=shard_size)
+    ctx.tlc_runs[n0:] = sorted(ctx.tlc_runs[n0:], key=lambda t: t["what"])       # completion order of the shards -> fixed order
     byid = {r["id"]: r for r in recs}
     gating = {}
     for rid, failing in rejects.items():
@@ -1084,8 +1116,8 @@ def corrupt_b(rec):
         o["line"]["raw"] = o["line"]["raw"][::-1]
     elif fn == "cmp":
         o["res"] = not o["res"]
-    elif fn == "ahelp" and o["toks"]:
-        o["toks"][0] = o["toks"][0] + "x"
+    elif fn == "ahelp" and o["fields"] and r["c"]["tab"]["nrows"] > 0:
+        o["fields"][0]["ts"] = o["fields"][0]["ts"] + "x"
     elif fn == "ridx" and o["vals"]:
         o["vals"][0] = r["c"]["imax"]
     elif fn == "randind" and o["vals"] and not r["c"]["big"]:
@@ -1109,6 +1141,11 @@ def corrupt_b(rec):
 
 # ------------------------------------------------------------------------------------------ run
 def run(ctx):
+    with ScratchRoot():
+        _run(ctx)
+
+
+def _run(ctx):
     B = BOUNDS[ctx.tier]
     consts = dict(B, FixedSticky=True, Parts={"aprint", "writer", "b"}, DoExport=False)
     only = getattr(ctx, "only", None) or {"mc", "selftest", "replay", "seeded"}
@@ -1174,10 +1211,11 @@ def run(ctx):
             if missing:
                 raise MachineryError("binding self-test failed: corrupted %s record(s) accepted" % missing)
             ncorr += len(crecs)
+            ctx.note(selftest_corrupted_families=sorted(r["kind"] for r in crecs))
     nseed = 0
     if "seeded" in only:
         rng = random.Random(ctx.seed * 7919 + 13)
-        nseed = 2000 if ctx.quick else 40000
+        nseed = 2000 if ctx.quick else 20000
         sitems = [(10 ** 6 + i, rand_history(rng), rng.randrange(10 ** 6)) for i in range(nseed)]
         for b0 in range(0, len(sitems), 20000):
             recs = pmap(run_hist, sitems[b0:b0 + 20000])
@@ -1216,6 +1254,11 @@ def run(ctx):
 
 
 def replay(ctx, case):
+    with ScratchRoot():
+        _replay(ctx, case)
+
+
+def _replay(ctx, case):
     if case.get("kind") == "hist":
         rec = run_hist((1, case["case"], case["conc"]))
         for c in rec["H"]["calls"]:
